@@ -21,6 +21,7 @@
                 them; `decodeNs` reads an id tree back through the interning tables.
 -/
 import XotModel.Lemmas.ParseSpellDefs
+import XotModel.Lemmas.SharedDefs
 
 namespace XotModel
 
@@ -301,8 +302,7 @@ def NItem.node? : NItem → Option NPNode
   | .node n => some n
   | _ => none
 
-/-- The expanded name of a name id: (namespace URI, local name). -/
-def Env.expanded (env : Env) (n : Nat) : Str × Str := (env.namespaceStr (env.nsOfName n), env.localName n)
+-- `Env.expanded` (the expanded name of a name id: (namespace URI, local name)) is in `Lemmas/SharedDefs.lean`.
 
 /-- An id tree read back through the interning tables. -/
 def decodeNsTree (env : Env) : Tree → Option NItem
